@@ -121,7 +121,8 @@ func (w *gwWorld) putSetting(cl *s3c.Client, bucket, s, doc string) *s3c.Resp {
 			h = []s3c.KV{{K: "X-Amz-Grant-Read", V: bucketUsers["u2"].Access}}
 		}
 		if doc == "A3" {
-			// an AccessControlPolicy body: the owner, and ONE grantee in two grants (READ, WRITE)
+			// an AccessControlPolicy body: ONE grantee in two grants (READ, WRITE); the owner's
+			// own full control is implied (the gateway adds it to whatever the list holds)
 			owner := cl.Creds.Access
 			if g := cl.Do(s3c.Req{Method: "GET", Path: "/" + bucket, Query: q}); g.OK() {
 				var d aclDoc
@@ -133,7 +134,7 @@ func (w *gwWorld) putSetting(cl *s3c.Client, bucket, s, doc string) *s3c.Resp {
 				return `<Grant><Grantee xmlns:xsi="http://www.w3.org/2001/XMLSchema-instance" xsi:type="CanonicalUser"><ID>` + id + `</ID></Grantee><Permission>` + perm + `</Permission></Grant>`
 			}
 			body := `<AccessControlPolicy xmlns="http://s3.amazonaws.com/doc/2006-03-01/"><Owner><ID>` + owner + `</ID></Owner><AccessControlList>` +
-				grant(owner, "FULL_CONTROL") + grant(bucketUsers["u2"].Access, "READ") + grant(bucketUsers["u2"].Access, "WRITE") + `</AccessControlList></AccessControlPolicy>`
+				grant(bucketUsers["u2"].Access, "READ") + grant(bucketUsers["u2"].Access, "WRITE") + `</AccessControlList></AccessControlPolicy>`
 			return cl.Do(s3c.Req{Method: "PUT", Path: "/" + bucket, Query: q, Body: []byte(body)})
 		}
 		return cl.Do(s3c.Req{Method: "PUT", Path: "/" + bucket, Query: q, Headers: h})
